@@ -4,6 +4,6 @@ P=$1; PROP=$2; TIER=${3:-quick}
 cd /repo || exit 1
 git diff --quiet || { echo "/repo dirty"; exit 2; }
 git apply "$P" || { echo "patch does not apply"; exit 3; }
-cd /verif && timeout 3000 ./check $PROP --tier $TIER 2>&1 | grep "VIOLATION\|KNOWN\|tier=" | cut -c1-220
+cd /verif && timeout 3000 ./check $PROP --tier $TIER 2>&1 | grep "^VIOLATION\|tier=" | cut -c1-200
 git -C /repo checkout -- .
 git -C /repo status --short | head -3
